@@ -237,6 +237,9 @@ func (oracleC15) Invariant(x *OCtx, v *View, m *Mon) []Violation {
 			if d := pricingDiff(p, parseRefPricing(b.Pricing)); d != "" {
 				add("stored-price-terms-match-published-pricing", nameOf(b.Provider), fmt.Sprintf("(%s,%s): %s (text %s)", b.ServiceName, nameOf(b.Provider), d, b.Pricing))
 			}
+			if err := st.ValidatePricing(p); err != nil { // the module's own rule for price terms
+				add("stored-price-terms-are-valid", nameOf(b.Provider), fmt.Sprintf("(%s,%s): stored price terms are refused by the module's own validation: %v (text %s)", b.ServiceName, nameOf(b.Provider), err, b.Pricing))
+			}
 			x.Wit("C15:pricing-record-compared")
 		}
 	}
